@@ -148,11 +148,21 @@ def _winit(repo: str, buf, as_limit: int):
     bootstrap.activate(buf)
 
 
+SHARD_DEADLINE_S = int(os.environ.get("VERIF_SHARD_DEADLINE_S", "7200"))
+
+
 def _wrun(modname: str, shard, seed: int):
+    import threading
+
     mod = importlib.import_module(modname)
     ctx = Ctx(mod.PROPERTY, shard, seed)
     t = time.time()
     err = None
+    # last line of defence: a shard that hangs outside every ctx.watch() kills its worker instead of hanging the check
+    # (the parent then reports a harness error, never a silent pass)
+    killer = threading.Timer(SHARD_DEADLINE_S, lambda: os._exit(70))
+    killer.daemon = True
+    killer.start()
     try:
         mod.run_shard(shard, ctx)
     except StopShard:
@@ -163,6 +173,7 @@ def _wrun(modname: str, shard, seed: int):
         err = traceback.format_exc()
     finally:
         signal.setitimer(signal.ITIMER_REAL, 0)
+        killer.cancel()
     res = ctx.result()
     res["wall"] = time.time() - t
     res["error"] = err
